@@ -40,6 +40,7 @@ RestartEq(e) == /\ ~e.rs.failed
                 /\ e.rs.mark = e.post.mark
                 /\ \A d \in 1..K.maxd : \A f \in ChanFields : e.rs.chans[d][f] = e.post.chans[d][f]
                 /\ e.rs.pst = e.post.pst /\ e.rs.lis = e.post.lis
+                /\ e.rs.feq
 C15r == l > 1 => LET e == Steps[l - 1] IN e.rc = 2 \/ e.post.dead \/ RestartEq(e)
 
 Idx == DOMAIN Steps
